@@ -97,6 +97,31 @@ func checkCase(c Case) (out evid.Outcome) {
 		return out
 	}
 	compiled := map[string][]model.MRoute{}
+	var hits []rt.Hit
+	defer func() {
+		// the outcome is a function of the routes and the request: the same
+		// requests on an instance that has seen nothing else, last one first,
+		// give the same outcomes
+		if out.Violation != "" || len(hits) != len(c.Reqs) {
+			return
+		}
+		fresh, _, ferr := rt.NewAppMode(c.Regs, mode)
+		if ferr != nil {
+			return
+		}
+		for i := len(c.Reqs) - 1; i >= 0; i-- {
+			qr := c.Reqs[i]
+			q := rt.Req{M: unq(qr.M), P: unq(qr.P), H: qr.H, Wire: qr.W}
+			h := serveOn(fresh, q, qr)
+			if mode == "empty" && h.Handler < 0 && h.Panic == nil {
+				h.NotFound = true
+			}
+			if !reflect.DeepEqual(h, hits[i]) {
+				out = fail(out, "history-dependent", "%q %q: outcome %+v after the requests before it, %+v on a fresh instance (requests served last first)", unq(qr.M), clip(unq(qr.P)), hits[i], h)
+				return
+			}
+		}
+	}()
 	for _, qr := range c.Reqs {
 		m, p := unq(qr.M), unq(qr.P)
 		q := rt.Req{M: m, P: p, H: qr.H, Wire: qr.W}
@@ -108,17 +133,7 @@ func checkCase(c Case) (out evid.Outcome) {
 					h.NotFound = true
 				}
 			}()
-			if qr.NH {
-				return app.ServeRaw(rt.NewRequestNilHeader(m, p))
-			}
-			if len(qr.EH) > 0 {
-				h := q.Header()
-				for _, name := range qr.EH {
-					h[name] = []string{}
-				}
-				return app.ServeRaw(rt.NewRequest(m, p, h))
-			}
-			return app.Serve(q)
+			return serveOn(app, q, qr)
 		}
 		hit := serve()
 		known := false
@@ -155,6 +170,7 @@ func checkCase(c Case) (out evid.Outcome) {
 		if !reflect.DeepEqual(hit, again) {
 			return fail(out, "nondeterministic", "%s: first outcome %+v, second outcome %+v", desc, hit, again)
 		}
+		hits = append(hits, hit)
 		if hit.Handler >= 0 {
 			out.Classes = append(out.Classes, "dispatched")
 		} else {
@@ -188,6 +204,22 @@ func checkCase(c Case) (out evid.Outcome) {
 		}
 	}
 	return out
+}
+
+// serveOn sends one request (with its odd header shapes) to an application.
+func serveOn(app *rt.App, q rt.Req, qr QReq) rt.Hit {
+	req := q.HTTP()
+	switch {
+	case qr.NH:
+		req.Header = nil
+	case len(qr.EH) > 0:
+		for _, name := range qr.EH {
+			req.Header[name] = []string{}
+		}
+	default:
+		return app.Serve(q)
+	}
+	return app.ServeRaw(req)
 }
 
 func clip(s string) string {
@@ -265,6 +297,14 @@ func genCase(t *rapid.T) Case {
 			ms = []string{"GET", "POST", "*", "head"}
 		}
 		c.Regs, _ = gen.RouteSet(t, gen.SetOpts{Methods: ms, MaxRoutes: 6})
+	}
+	if rapid.IntRange(0, 5).Draw(t, "oddcapture") == 0 {
+		// a capture limit that is not a positive number means "no limit"; such a
+		// route may be refused at registration (then the case is skipped) but
+		// must not make routing panic
+		oc := []string{"-1", "0", "-9"}[rapid.IntRange(0, 2).Draw(t, "ocv")]
+		r := []string{"/oc/{p: **, capture: " + oc + "}/raw/{name}", "/oc/{p: **, capture: " + oc + "}"}[rapid.IntRange(0, 1).Draw(t, "ock")]
+		c.Regs = append(c.Regs, rt.Reg{M: "GET", R: r})
 	}
 	c.UserNotFound = rapid.Bool().Draw(t, "unf")
 	c.EmptyNotFound = rapid.IntRange(0, 5).Draw(t, "enf") == 0
